@@ -42,6 +42,7 @@ type txMeta struct {
 	local    bool
 	call     *methodInfo
 	callArgs string
+	target   string // governance: object or proposal id the transaction is about
 }
 
 type pairT struct{ src, dst *mService }
@@ -63,6 +64,7 @@ type scn struct {
 	blockNo      int    // number of workload blocks executed (policy restart index)
 	ibtp         *ibtpModel
 	grp          *groupModel
+	gov          *govModel
 	bal          *balModel
 	fatal        bool
 	fabsimProofs int
@@ -131,6 +133,7 @@ func Execute(prop string, p *sim.Plan, keep bool) (res *sim.Result) {
 	s.height = s.reps[0].height
 	s.ibtp = newIbtpModel(s)
 	s.grp = newGroupModel(s)
+	s.gov = newGovModel(s)
 	s.bal = newBalModel(s)
 	s.setup()
 	if s.fatal || res.Aborted != "" {
@@ -309,6 +312,15 @@ func (s *scn) setup() {
 func (s *scn) voteAll(pids []string) bool {
 	w := s.cfg.World
 	need := w.Admins/2 + 1
+	if w.Strategy != "" {
+		need = w.Admins
+		for a := 1; a <= w.Admins; a++ {
+			if ok, err := evalStrategy(w.Strategy, uint64(a), 0, uint64(w.Admins)); err == nil && ok {
+				need = a
+				break
+			}
+		}
+	}
 	for _, pid := range pids {
 		for i := 0; i < need; i++ {
 			k := w.adminKey(i)
